@@ -21,7 +21,8 @@ Inductive stmt :=
 | IfS (c : string) (a b : list stmt)
 | Loop (body : list stmt)
 | Ret (x_from_solver unscaled : bool) (f : flagsrc)
-| Raise.
+| Raise
+| Break.
 
 (* a path: the tags executed, and how it ended *)
 Inductive ending := EndRet (x_from_solver unscaled : bool) (f : flagsrc) | EndRaise | EndFall | EndFuel.
@@ -30,25 +31,45 @@ Definition path : Type := (list tag * ending)%type.
 (* all paths through a block.  Conditions are treated as independent (a superset of the feasible paths); a loop body runs
    0, 1 or 2 times.  `k` continues an unfinished path with the rest of the enclosing blocks.  Running out of fuel yields a
    path ending in EndFuel, which the checker rejects (never silently drops a path). *)
-Fixpoint paths_stmts (fuel : nat) (l : list stmt) (k : list tag -> list path) (pre : list tag) : list path :=
+(* statements that cannot influence the order property: only `Other`, no return / raise, and `break` only inside a loop that is
+   itself part of the statement.  They are skipped by the enumerator (keeps the path count of AlSolver's outer loop small). *)
+Fixpoint inert (fuel : nat) (inloop : bool) (s : stmt) : bool :=
+  match fuel with
+  | O => false
+  | S f => match s with
+           | Do Other => true
+           | Do _ => false
+           | IfS _ a b => forallb (inert f inloop) a && forallb (inert f inloop) b
+           | Loop body => forallb (inert f true) body
+           | Break => inloop
+           | Ret _ _ _ | Raise => false
+           end
+  end.
+
+Fixpoint paths_stmts (fuel : nat) (l : list stmt) (k kb : list tag -> list path) (pre : list tag) : list path :=
   match fuel with
   | O => [(pre, EndFuel)]
   | S f =>
       match l with
       | [] => k pre
       | s :: r =>
-          let kr := fun pre' => paths_stmts f r k pre' in
+          let kr := fun pre' => paths_stmts f r k kb pre' in
+          if inert 100 false s then kr pre else
           match s with
           | Do t => kr (pre ++ [t])
-          | IfS _ a b => paths_stmts f a kr pre ++ paths_stmts f b kr pre
-          | Loop body => kr pre ++ paths_stmts f body kr pre ++ paths_stmts f body (fun pre' => paths_stmts f body kr pre') pre
+          | IfS _ a b => paths_stmts f a kr kb pre ++ paths_stmts f b kr kb pre
+          | Loop body =>       (* 0, 1 or 2 passes; `break` and the end of the last pass both continue after the loop *)
+              kr pre ++ paths_stmts f body kr kr pre ++ paths_stmts f body (fun pre' => paths_stmts f body kr kr pre') kr pre
           | Ret x u fl => [(pre, EndRet x u fl)]
           | Raise => [(pre, EndRaise)]
+          | Break => kb pre
           end
       end
   end.
 
-Definition paths (l : list stmt) : list path := paths_stmts 1000 l (fun pre => [(pre, EndFall)]) [].
+(* a `break` outside any loop is malformed: it ends the path in EndFall, which the checker rejects *)
+Definition paths (l : list stmt) : list path :=
+  paths_stmts 1000 l (fun pre => [(pre, EndFall)]) (fun pre => [(pre, EndFall)]) [].
 
 (* --- the order property, per path --- *)
 Definition is_solve (t : tag) : bool := match t with Solve _ _ | SubSolve => true | _ => false end.
